@@ -9,6 +9,7 @@ package main
 import (
 	"bytes"
 	"crypto"
+	stded "crypto/ed25519"
 	"crypto/rand"
 	"crypto/sha512"
 	"encoding/json"
@@ -71,6 +72,33 @@ type instance struct {
 	// lifetime and loads every received key into it (per run; never shared across runs)
 	newVerifier   func() func(pk, msg []byte, ctx string, sig []byte) bool
 	infPK, infSig []byte // encodings of the group identity as key and as signature, if the format has them
+	// refSign: an independent implementation of the (deterministic) scheme, if one exists offline
+	// (Go's crypto/ed25519 for Ed25519, Ed25519ctx, Ed25519ph); nil result = not applicable
+	refSign func(seed, msg []byte, ctx string) []byte
+	// internalVerify / internalSign: the scheme's "internal" algorithms over a message representative
+	// the harness builds itself (FIPS 204: M' = 0 || |ctx| || ctx || M for pure ML-DSA)
+	internalVerify func(pk, mprime, sig []byte) bool
+	internalSign   func(sk, mprime []byte) []byte
+}
+
+func stdEd25519(ph, needCtx bool) func(seed, msg []byte, ctx string) []byte {
+	return func(seed, msg []byte, ctx string) []byte {
+		if len(ctx) > 255 || (needCtx && ctx == "") {
+			return nil
+		}
+		sk := stded.NewKeyFromSeed(seed)
+		opts := &stded.Options{Context: ctx}
+		m := msg
+		if ph {
+			d := sha512.Sum512(msg)
+			m, opts.Hash = d[:], crypto.SHA512
+		}
+		sig, err := sk.Sign(nil, m, opts)
+		if err != nil {
+			panic("HARNESS: crypto/ed25519: " + err.Error())
+		}
+		return sig
+	}
 }
 
 var l25519, _ = new(big.Int).SetString("7237005577332262213973186563042994240857116359379907606001950938285454250989", 10)
@@ -115,6 +143,7 @@ func fromScheme(s sign.Scheme) *instance {
 	switch s.Name() {
 	case "Ed25519":
 		in.sOff, in.sLen, in.order, in.pubInSk = 32, 32, l25519, [2]int{32, 64}
+		in.refSign = func(seed, msg []byte, _ string) []byte { return stdEd25519(false, false)(seed, msg, "") }
 		in.others = []func([]byte, []byte, string, []byte) bool{
 			func(pk, m []byte, c string, sg []byte) bool { return ed25519.VerifyPh(ed25519.PublicKey(pk), m, sg, c) },
 			func(pk, m []byte, c string, sg []byte) bool {
@@ -132,6 +161,44 @@ func fromScheme(s sign.Scheme) *instance {
 		in.sOff, in.sLen, in.order = s.SignatureSize()-57, 57, l448
 	}
 	// hedged signing through crypto.Signer with an explicit reader (ML-DSA)
+	switch s.Name() {
+	case "ML-DSA-44":
+		in.internalVerify = func(pk, mp, sg []byte) bool {
+			var k mldsa44.PublicKey
+			return k.UnmarshalBinary(pk) == nil && mldsa44.VerifVerifyInternal(&k, mp, sg)
+		}
+		in.internalSign = func(sk, mp []byte) []byte {
+			var k mldsa44.PrivateKey
+			if k.UnmarshalBinary(sk) != nil {
+				return nil
+			}
+			return mldsa44.VerifSignInternal(&k, mp, [32]byte{})
+		}
+	case "ML-DSA-65":
+		in.internalVerify = func(pk, mp, sg []byte) bool {
+			var k mldsa65.PublicKey
+			return k.UnmarshalBinary(pk) == nil && mldsa65.VerifVerifyInternal(&k, mp, sg)
+		}
+		in.internalSign = func(sk, mp []byte) []byte {
+			var k mldsa65.PrivateKey
+			if k.UnmarshalBinary(sk) != nil {
+				return nil
+			}
+			return mldsa65.VerifSignInternal(&k, mp, [32]byte{})
+		}
+	case "ML-DSA-87":
+		in.internalVerify = func(pk, mp, sg []byte) bool {
+			var k mldsa87.PublicKey
+			return k.UnmarshalBinary(pk) == nil && mldsa87.VerifVerifyInternal(&k, mp, sg)
+		}
+		in.internalSign = func(sk, mp []byte) []byte {
+			var k mldsa87.PrivateKey
+			if k.UnmarshalBinary(sk) != nil {
+				return nil
+			}
+			return mldsa87.VerifSignInternal(&k, mp, [32]byte{})
+		}
+	}
 	switch s.Name() {
 	case "ML-DSA-44", "ML-DSA-65", "ML-DSA-87":
 		in.hedged = func(skB []byte, rnd *core.Stream, msg []byte) ([]byte, error) {
@@ -159,6 +226,7 @@ func edVariant(name string) *instance {
 	case "Ed25519ctx", "Ed25519ph":
 		ph := name == "Ed25519ph"
 		in := &instance{name: name, seedSize: 32, sigSize: 64, ctxOK: true, ctxMust: !ph, sOff: 32, sLen: 32, order: l25519, pubInSk: [2]int{32, 64}}
+		in.refSign = stdEd25519(ph, !ph)
 		in.derive = func(seed []byte) ([]byte, []byte) {
 			sk := ed25519.NewKeyFromSeed(seed)
 			return append([]byte{}, sk.Public().(ed25519.PublicKey)...), append([]byte{}, sk...)
@@ -444,6 +512,29 @@ func exec(planJSON []byte, run *core.Run) {
 		if !ok {
 			run.Violate(comp+".Verify", "rejects-honest-signature", "message %d (len %d, ctx %d)", i, len(msg), len(ctx))
 			return
+		}
+		// independent implementation of the same deterministic scheme: identical bytes
+		if in.refSign != nil {
+			if want := in.refSign(seed, msg, ctx); want != nil {
+				run.Probe("compared-with-independent-implementation")
+				if !bytes.Equal(want, sig) {
+					run.Violate(comp+".Sign", "signature-differs-from-independent-implementation", "message %d (len %d, ctx %d bytes): circl %s, crypto/ed25519 %s", i, len(msg), len(ctx), sh(sig), sh(want))
+					return
+				}
+			}
+		}
+		// the signature is one over the specified message representative, built here
+		if in.internalVerify != nil && len(ctx) <= 255 {
+			mprime := append(append([]byte{0, byte(len(ctx))}, ctx...), msg...)
+			run.Probe("checked-against-fips204-message-representative")
+			if !in.internalVerify(pkB, mprime, sig) {
+				run.Violate(comp+".Sign", "signature-not-over-the-specified-message-representative", "message %d: the signature does not verify over M' = 0 || %d || ctx || M (|M|=%d)", i, len(ctx), len(msg))
+				return
+			}
+			if is := in.internalSign(skB, mprime); !bytes.Equal(is, sig) {
+				run.Violate(comp+".Sign", "signature-not-over-the-specified-message-representative", "message %d: deterministic signing differs from Sign_internal over M' = 0 || %d || ctx || M", i, len(ctx))
+				return
+			}
 		}
 		// --- one fault on the way to the verifier ---
 		vpk, vmsg, vctx, vsig := append([]byte{}, pkB...), append([]byte{}, msg...), ctx, append([]byte{}, sig...)
@@ -808,7 +899,7 @@ func main() {
 			"signer key storage":               "stub: simulated disk with restart and stored-byte flips",
 			"crypto/rand.Reader":               "stub: deterministic entropy device (short reads, errors)",
 		},
-		ProbeNames: []string{"S+L-fits"},
+		ProbeNames: []string{"S+L-fits", "compared-with-independent-implementation", "checked-against-fips204-message-representative"},
 		Directed:   directed,
 		Gen:        gen,
 		Exec:       exec,
